@@ -672,6 +672,32 @@ impl<'a> LoweringManager<'a> {
   }
 }
 
+/// String literals reach the back ends with their escape sequences intact (the parser resolves
+/// `\"` only), since the TypeScript back end prints them inside a template literal, where
+/// JavaScript resolves them. The data segment needs the resolved bytes.
+fn resolve_string_escapes(s: &str) -> Vec<u8> {
+  let mut bytes = Vec::with_capacity(s.len());
+  let mut iter = s.bytes();
+  while let Some(b) = iter.next() {
+    if b != b'\\' {
+      bytes.push(b);
+      continue;
+    }
+    match iter.next() {
+      Some(b't') => bytes.push(b'\t'),
+      Some(b'n') => bytes.push(b'\n'),
+      Some(b'r') => bytes.push(b'\r'),
+      Some(b'0') => bytes.push(0),
+      Some(b'b') => bytes.push(0x08),
+      Some(b'f') => bytes.push(0x0c),
+      Some(b'v') => bytes.push(0x0b),
+      Some(escaped) => bytes.push(escaped),
+      None => bytes.push(b'\\'),
+    }
+  }
+  bytes
+}
+
 pub(super) fn compile_lir_to_wasm(heap: &mut Heap, sources: lir::Sources) -> wasm::Module {
   let lir::Sources {
     symbol_table: source_symbol_table,
@@ -690,10 +716,10 @@ pub(super) fn compile_lir_to_wasm(heap: &mut Heap, sources: lir::Sources) -> was
   // Collect all string bytes into a single data segment
   let mut data_segment_bytes = Vec::new();
   for (idx, hir::GlobalString(content)) in source_global_variables.iter().enumerate() {
-    let content_str = content.as_str(heap);
+    let content_bytes = resolve_string_escapes(content.as_str(heap));
     let offset = data_segment_bytes.len();
-    let length = content_str.len();
-    data_segment_bytes.extend_from_slice(content_str.as_bytes());
+    let length = content_bytes.len();
+    data_segment_bytes.extend_from_slice(&content_bytes);
     // Create a unique global name for this string (GLOBAL_STRING_0, GLOBAL_STRING_1, ...)
     let global_name = heap.alloc_string(format!("GLOBAL_STRING_{idx}"));
     string_name_mapping.insert(*content, global_name);
